@@ -30,11 +30,12 @@ VARIABLES l, done,
           callow,
           pmust, pmay,    \* P-layer by events (as CacheObsTrace)
           pgmu, pgma,
+          hk,             \* [c -> 0 no store scan pending / 1 scan done, `db` event due / 2 inside the hook]
           tagsSeen,
           runTags         \* one record [id, tags] per finished run
 
-tvars == <<vars, l, done, wpend, callow, pmust, pmay, pgmu, pgma, tagsSeen, runTags>>
-tview == <<view, l, done, wpend, callow, pmust, pmay, pgmu, pgma, tagsSeen, runTags>>
+tvars == <<vars, l, done, wpend, callow, pmust, pmay, pgmu, pgma, hk, tagsSeen, runTags>>
+tview == <<view, l, done, wpend, callow, pmust, pmay, pgmu, pgma, hk, tagsSeen, runTags>>
 
 NoW == [b |-> -1, k |-> 0, op |-> "", lo |-> 0, hi |-> 0, started |-> TRUE]
 
@@ -47,13 +48,14 @@ TInit ==
     /\ pmay = [k \in Keys |-> {}]
     /\ pgmu = [c \in Clients |-> {}]
     /\ pgma = [c \in Clients |-> {}]
+    /\ hk = [c \in Clients |-> 0]
     /\ tagsSeen = {}
     /\ runTags = <<>>
 
 Ev == Rec[l]
 Is(e) == l <= Len(Rec) /\ Ev.e = e
 Consume == l' = l + 1 /\ UNCHANGED done
-TFrame == UNCHANGED <<l, done, wpend, callow, pmust, pmay, pgmu, pgma, tagsSeen, runTags>>
+TFrame == UNCHANGED <<l, done, wpend, callow, pmust, pmay, pgmu, pgma, hk, tagsSeen, runTags>>
 
 
 RECURSIVE GeFrom(_, _)
@@ -69,6 +71,7 @@ TRun ==
     /\ pmay' = [k \in Keys |-> {}]
     /\ pgmu' = [c \in Clients |-> {}]
     /\ pgma' = [c \in Clients |-> {}]
+    /\ hk' = [c \in Clients |-> 0]
     /\ tagsSeen' = {}
     /\ UNCHANGED runTags
     /\ Consume
@@ -76,13 +79,13 @@ TRun ==
 TReset ==
     /\ Is("reset")
     /\ runTags' = Append(runTags, [id |-> Ev.id, tags |-> tagsSeen])
-    /\ UNCHANGED <<vars, wpend, callow, pmust, pmay, pgmu, pgma, tagsSeen>>
+    /\ UNCHANGED <<vars, wpend, callow, pmust, pmay, pgmu, pgma, hk, tagsSeen>>
     /\ Consume
 
 TNew ==
     /\ Is("new") /\ Ev.b = NextEpoch
     /\ NewBatch(Ev.c)
-    /\ UNCHANGED <<wpend, callow, pmust, pmay, pgmu, pgma, tagsSeen, runTags>>
+    /\ UNCHANGED <<wpend, callow, pmust, pmay, pgmu, pgma, hk, tagsSeen, runTags>>
     /\ Consume
 
 WEl(ev) == IF ev.op = "insr" THEN ev.v..(ev.hi - 1) ELSE {ev.v}
@@ -97,7 +100,7 @@ TWriteStart ==
     /\ pmust' = IF Ev.op = "rem" THEN [pmust EXCEPT ![Ev.k] = @ \ WEl(Ev)] ELSE pmust
     /\ pgma' = [c \in Clients |-> IF Running(c, Ev.k) /\ Ev.op # "rem" THEN pgma[c] \cup WEl(Ev) ELSE pgma[c]]
     /\ pgmu' = [c \in Clients |-> IF Running(c, Ev.k) /\ Ev.op = "rem" THEN pgmu[c] \ WEl(Ev) ELSE pgmu[c]]
-    /\ UNCHANGED <<vars, callow, tagsSeen, runTags>>
+    /\ UNCHANGED <<vars, callow, hk, tagsSeen, runTags>>
     /\ Consume
 
 (* hidden: put_set + pin + append of a single-element write *)
@@ -105,7 +108,7 @@ TApply(c) ==
     /\ ~wpend[c].started /\ wpend[c].op \in {"ins", "rem"}
     /\ DoWStart(c, wpend[c].b, wpend[c].k, wpend[c].op, wpend[c].lo)
     /\ wpend' = [wpend EXCEPT ![c].started = TRUE]
-    /\ UNCHANGED <<nops, hist, l, done, callow, pmust, pmay, pgmu, pgma, tagsSeen, runTags>>
+    /\ UNCHANGED <<nops, hist, l, done, callow, pmust, pmay, pgmu, pgma, hk, tagsSeen, runTags>>
 
 TUpdate(c) == WUpdate(c) /\ TFrame
 
@@ -138,7 +141,7 @@ TApplyRange(c) ==
         /\ must' = [must EXCEPT ![k] = @ \cup es]
         /\ may' = [may EXCEPT ![k] = @ \cup es]
     /\ wpend' = [wpend EXCEPT ![c].started = TRUE]
-    /\ UNCHANGED <<db, flight, pc, gmust, gmay, nops, hist, viol, l, done, callow, pmust, pmay, pgmu, pgma, tagsSeen, runTags>>
+    /\ UNCHANGED <<db, flight, pc, gmust, gmay, nops, hist, viol, l, done, callow, pmust, pmay, pgmu, pgma, hk, tagsSeen, runTags>>
 
 TWriteEnd ==
     /\ Is("we")
@@ -146,19 +149,19 @@ TWriteEnd ==
     /\ wpend' = [wpend EXCEPT ![Ev.c] = NoW]
     /\ pmust' = IF Ev.op = "rem" THEN pmust ELSE [pmust EXCEPT ![Ev.k] = @ \cup WEl(Ev)]
     /\ pmay' = IF Ev.op = "rem" THEN [pmay EXCEPT ![Ev.k] = @ \ WEl(Ev)] ELSE pmay
-    /\ UNCHANGED <<vars, callow, pgmu, pgma, tagsSeen, runTags>>
+    /\ UNCHANGED <<vars, callow, pgmu, pgma, hk, tagsSeen, runTags>>
     /\ Consume
 
 TSubmit ==
     /\ Is("sub")
     /\ Submit(Ev.c, Ev.b)
-    /\ UNCHANGED <<wpend, callow, pmust, pmay, pgmu, pgma, tagsSeen, runTags>>
+    /\ UNCHANGED <<wpend, callow, pmust, pmay, pgmu, pgma, hk, tagsSeen, runTags>>
     /\ Consume
 
 TCommitStart ==
     /\ Is("cs")
     /\ callow' = Ev.b + 1
-    /\ UNCHANGED <<vars, wpend, pmust, pmay, pgmu, pgma, tagsSeen, runTags>>
+    /\ UNCHANGED <<vars, wpend, pmust, pmay, pgmu, pgma, hk, tagsSeen, runTags>>
     /\ Consume
 
 TCommit(e) == e < callow /\ Commit(e) /\ TFrame
@@ -167,7 +170,7 @@ TNotify(e) == e < callow /\ Notify(e) /\ TFrame
 TCommitEnd ==
     /\ Is("ce")
     /\ Ev.b < NextEpoch /\ B(Ev.b).st = "not"
-    /\ UNCHANGED <<vars, wpend, callow, pmust, pmay, pgmu, pgma, tagsSeen, runTags>>
+    /\ UNCHANGED <<vars, wpend, callow, pmust, pmay, pgmu, pgma, hk, tagsSeen, runTags>>
     /\ Consume
 
 TGetStart ==
@@ -175,18 +178,36 @@ TGetStart ==
     /\ GetStart(Ev.c, Ev.k)
     /\ pgmu' = [pgmu EXCEPT ![Ev.c] = pmust[Ev.k]]
     /\ pgma' = [pgma EXCEPT ![Ev.c] = pmay[Ev.k]]
-    /\ UNCHANGED <<wpend, callow, pmust, pmay, tagsSeen, runTags>>
+    /\ UNCHANGED <<wpend, callow, pmust, pmay, hk, tagsSeen, runTags>>
     /\ Consume
 
+TFrameH == UNCHANGED <<l, done, wpend, callow, pmust, pmay, pgmu, pgma, tagsSeen, runTags>>
+
+(* the store scan precedes its `db` event, the install follows the `dbx` event *)
 THidden(c) ==
-    /\ \/ Snapshot(c) \/ Probe(c) \/ Flight(c) \/ Install(c)
-       \/ (pc[c].st = "scan" /\ pc[c].ndb < GeFrom(c, l).db /\ Scan(c))
-    /\ TFrame
+    \/ /\ Snapshot(c) \/ Probe(c) \/ Flight(c) \/ (hk[c] = 0 /\ Install(c))
+       /\ TFrame
+    \/ /\ pc[c].st = "scan" /\ hk[c] = 0 /\ pc[c].ndb < GeFrom(c, l).db
+       /\ Scan(c)
+       /\ hk' = [hk EXCEPT ![c] = 1]
+       /\ TFrameH
+
+TDb ==
+    /\ Is("db") /\ hk[Ev.c] = 1
+    /\ hk' = [hk EXCEPT ![Ev.c] = 2]
+    /\ UNCHANGED <<vars, wpend, callow, pmust, pmay, pgmu, pgma, tagsSeen, runTags>>
+    /\ Consume
+
+TDbx ==
+    /\ Is("dbx") /\ hk[Ev.c] = 2
+    /\ hk' = [hk EXCEPT ![Ev.c] = 0]
+    /\ UNCHANGED <<vars, wpend, callow, pmust, pmay, pgmu, pgma, tagsSeen, runTags>>
+    /\ Consume
 
 (* hidden: the iteration; the recorded result must be a possible outcome.   *)
 (* (large values are bound by \E v \in {expr}: TLC evaluates them once)      *)
 TRead(c) ==
-    /\ pc[c].st = "read"
+    /\ pc[c].st = "read" /\ hk[c] = 0
     /\ \E r \in {ToSet(GeFrom(c, l).r)} :
        LET k == pc[c].k
            shared == pc[c].ent = 1
@@ -196,16 +217,19 @@ TRead(c) ==
                 /\ SpillAcceptsH(H, pc[c].scan, pc[c].sa, pc[c].sr, r)
                 /\ pc' = [pc EXCEPT ![c].st = "done", ![c].res = r,
                                     ![c].tags = pc[c].stag \cup SpillTagsH(H, pc[c].scan, pc[c].sa, pc[c].sr)]
+                /\ UNCHANGED hk
         \/ /\ ~pc[c].spilled /\ kind = "mem"
            /\ r = IF shared THEN entry[k].set ELSE pc[c].eset
            /\ pc' = [pc EXCEPT ![c].st = "done", ![c].res = r,
                                ![c].tags = IF shared THEN entry[k].taint ELSE pc[c].etag]
-        \/ /\ ~pc[c].spilled /\ kind = "large"
+           /\ UNCHANGED hk
+        \/ /\ ~pc[c].spilled /\ kind = "large"     \* Streaming: the store is scanned now
            /\ pc[c].ndb < GeFrom(c, l).db
            /\ r = (db[k] \ pc[c].sr) \cup pc[c].sa
            /\ pc' = [pc EXCEPT ![c].st = "done", ![c].res = r, ![c].tags = pc[c].stag, ![c].ndb = @ + 1]
+           /\ hk' = [hk EXCEPT ![c] = 1]
     /\ UNCHANGED <<log, lpres, dirty, lver, entry, db, batch, flight, must, may, gmust, gmay, nops, hist, viol>>
-    /\ TFrame
+    /\ TFrameH
 
 (* evictions are free, but only their order relative to the steps that look *)
 (* at the cache / the staging table matters: allow them only when such a   *)
@@ -221,7 +245,7 @@ TEvict(k) ==
 TGetEnd ==
     /\ Is("ge")
     /\ LET c == Ev.c IN
-        /\ pc[c].st = "done" /\ pc[c].k = Ev.k
+        /\ pc[c].st = "done" /\ pc[c].k = Ev.k /\ hk[c] = 0
         /\ pc[c].ndb = Ev.db
         /\ \E r \in {ToSet(Ev.r)} :
             /\ pc[c].res = r
@@ -233,19 +257,19 @@ TGetEnd ==
         /\ gmust' = [gmust EXCEPT ![c] = {}]
         /\ gmay' = [gmay EXCEPT ![c] = {}]
     /\ UNCHANGED <<log, lpres, dirty, lver, entry, db, batch, flight, must, may, nops, hist, viol,
-                   wpend, callow, pmust, pmay, pgmu, pgma, runTags>>
+                   wpend, callow, pmust, pmay, pgmu, pgma, hk, runTags>>
     /\ Consume
 
 TSkip ==
     /\ l <= Len(Rec) /\ Ev.e \in {"flood", "panic", "dead"}
-    /\ UNCHANGED <<vars, wpend, callow, pmust, pmay, pgmu, pgma, tagsSeen, runTags>>
+    /\ UNCHANGED <<vars, wpend, callow, pmust, pmay, pgmu, pgma, hk, tagsSeen, runTags>>
     /\ Consume
 
 TFinish ==
     /\ l = Len(Rec) + 1 /\ ~done
     /\ JsonSerialize(IOEnv.OUT, [accepted |-> TRUE, runs |-> runTags])
     /\ done' = TRUE
-    /\ UNCHANGED <<vars, l, wpend, callow, pmust, pmay, pgmu, pgma, tagsSeen, runTags>>
+    /\ UNCHANGED <<vars, l, wpend, callow, pmust, pmay, pgmu, pgma, hk, tagsSeen, runTags>>
 
 (* (depth-first search explores the LAST disjunct first: events before      *)
 (* hidden steps before evictions)                                          *)
@@ -254,7 +278,7 @@ TNext ==
     \/ \E e \in 0..(NextEpoch - 1) : TCommit(e) \/ TNotify(e)
     \/ \E c \in Clients : TApply(c) \/ TApplyRange(c) \/ TUpdate(c) \/ THidden(c) \/ TRead(c)
     \/ TRun \/ TNew \/ TWriteStart \/ TWriteEnd \/ TSubmit \/ TCommitStart \/ TCommitEnd
-    \/ TGetStart \/ TGetEnd \/ TSkip \/ TReset \/ TFinish
+    \/ TGetStart \/ TGetEnd \/ TDb \/ TDbx \/ TSkip \/ TReset \/ TFinish
 
 TraceSpec == TInit /\ [][TNext]_tvars
 
